@@ -219,7 +219,7 @@ func (X *Exec) havocAll(st *State, tag string) {
 	sort.Strings(names)
 	keep := map[string]*Term{}
 	for _, n := range names {
-		if strings.HasPrefix(n, "LK|") || strings.HasPrefix(n, "GH|") {
+		if strings.HasPrefix(n, "LK|") || strings.HasPrefix(n, "GH|") || n == "GM|chancap" {
 			keep[n] = X.heap(st, n, X.heapSorts[n])
 		}
 	}
